@@ -178,6 +178,33 @@ impl Spec {
         }
     }
 
+    /// Selection of the answer from an explicit occurrence list (the
+    /// definition used by formulation 2).
+    pub fn select(kind: Kind, occ: impl Iterator<Item = M>) -> Option<M> {
+        match kind {
+            Kind::Std => occ.min_by_key(|&(i, a, b)| (b, usize::MAX - (b - a), i)),
+            Kind::LF => occ.min_by_key(|&(i, a, _)| (a, i)),
+            Kind::LL => occ.min_by_key(|&(i, a, b)| (a, usize::MAX - (b - a), i)),
+        }
+    }
+
+    /// The non-overlapping iterator over an explicit occurrence list (only
+    /// non-empty patterns; unanchored), restricted to `[s, e)`.
+    pub fn iter_occ(kind: Kind, occ: &[M], s: usize, e: usize) -> Vec<M> {
+        let mut out = vec![];
+        let mut start = s;
+        loop {
+            match Spec::select(kind, occ.iter().copied().filter(|&(_, a, b)| a >= start && b <= e)) {
+                None => break,
+                Some(m) => {
+                    out.push(m);
+                    start = m.2;
+                }
+            }
+        }
+        out
+    }
+
     /// The non-overlapping iterator.
     pub fn iter(&self, kind: Kind, h: &[u8], s: usize, e: usize, anchored: bool) -> Vec<M> {
         let mut out = vec![];
